@@ -95,3 +95,59 @@ Proof.
   destruct (typed_desc_length _ _ Hd) as [_ Hlen]. destruct (wf_entries_same _ _ HR) as (_ & E2 & _).
   rewrite (proj2 typed_desc_premises top4 ds _ i r Ht Hd Hat), Hlen, E2. reflexivity.
 Qed.
+
+(* ---------- the table theorems for typed loops: no premise left ---------- *)
+Require Import Proofs.PsiParsePmt Proofs.PsiUserDesc.
+
+Definition pmt_parses_typed := pmt_sec_parses_p typed_desc typed_desc_premises.
+Definition sdt_parses_typed := sdt_parses_p typed_desc typed_desc_premises.
+Definition nit_parses_typed := nit_parses_p typed_desc typed_desc_premises.
+Definition eit_parses_typed := eit_parses_p typed_desc typed_desc_premises.
+Definition tot_parses_typed := tot_parses_p typed_desc typed_desc_premises.
+
+(* ---------- the domain is inhabited: five different tags, as a caller may write them and as they come back ---------- *)
+Definition ex_iso639 : DescriptorISO639LanguageAndAudioType :=
+  {| DescriptorISO639LanguageAndAudioType_Language := [102; 114; 97]; DescriptorISO639LanguageAndAudioType_Type := 1 |}.
+Definition ex_sid : DescriptorStreamIdentifier := {| DescriptorStreamIdentifier_ComponentTag := 7 |}.
+Definition ex_reg : DescriptorRegistration :=
+  {| DescriptorRegistration_AdditionalIdentificationInfo := [1; 2]; DescriptorRegistration_FormatIdentifier := 1094921523 |}.
+Definition ex_mbr : DescriptorMaximumBitrate := {| DescriptorMaximumBitrate_Bitrate := 50 * 1000 |}.
+
+(* as written by a caller: struct Length fields wrong or left 0, a content descriptor without items, a stray body *)
+Definition ex_typed_written : list Descriptor :=
+  [ set_ISO639LanguageAndAudioType (desc_hdr 10 0) ex_iso639;
+    set_StreamIdentifier (set_UserDefined (desc_hdr 82 99) [9; 9]) ex_sid;
+    set_Registration (desc_hdr 5 0) ex_reg;
+    set_Content (desc_hdr 84 3) {| DescriptorContent_Items := [] |};
+    set_MaximumBitrate (desc_hdr 14 200) ex_mbr;
+    set_UserDefined (desc_hdr 200 0) [1; 2; 3] ].
+(* as parseDescriptors returns them *)
+Definition ex_typed_loop : list Descriptor :=
+  [ set_ISO639LanguageAndAudioType (desc_hdr 10 4) ex_iso639;
+    set_StreamIdentifier (desc_hdr 82 1) ex_sid;
+    set_Registration (desc_hdr 5 6) ex_reg;
+    desc_hdr 84 0;
+    set_MaximumBitrate (desc_hdr 14 3) ex_mbr;
+    set_UserDefined (desc_hdr 200 3) [1; 2; 3] ].
+Definition ex_typed_bytes : list Z :=
+  [10; 4; 102; 114; 97; 1;  82; 1; 7;  5; 6; 65; 67; 45; 51; 1; 2;  84; 0;  14; 3; 192; 3; 232;  200; 3; 1; 2; 3].
+
+Lemma ex_typed_entries : Forall2 wf_entry ex_typed_written ex_typed_loop.
+Proof.
+  repeat (apply Forall2_cons; [split; [cbv; intuition discriminate|]; split; [reflexivity|]|]); [| | | | | |apply Forall2_nil].
+  - right. split; [reflexivity|]. apply (trt_iso639 _ ex_iso639); [reflexivity|reflexivity|reflexivity|cbv; intuition discriminate].
+  - right. split; [reflexivity|]. apply (trt_stream_identifier _ ex_sid); [reflexivity|reflexivity|cbv; intuition discriminate].
+  - right. split; [reflexivity|]. apply (trt_registration _ ex_reg); [reflexivity|reflexivity|cbv; intuition discriminate|reflexivity].
+  - left. split; reflexivity.
+  - right. split; [reflexivity|]. apply (trt_maximum_bitrate _ ex_mbr 1000); [reflexivity|reflexivity|reflexivity|cbv; intuition discriminate].
+  - right. split; [reflexivity|].
+    apply (trt_user_defined (set_UserDefined (desc_hdr 200 0) [1; 2; 3])); cbv; intuition discriminate.
+Qed.
+
+Lemma ex_typed_ok : typed_desc ex_typed_loop ex_typed_bytes /\ desc_bytes ex_typed_written ex_typed_bytes.
+Proof.
+  assert (E : exists its, enc_descriptors ex_typed_written = Ok its /\ items_bytes_ok its /\ bytes_of_items its = ex_typed_bytes).
+  { eexists. split; [vm_compute; reflexivity|]. split; [repeat constructor; cbv; intuition discriminate|vm_compute; reflexivity]. }
+  destruct E as (its & E & Hok & <-).
+  apply (typed_desc_of_written _ _ _ ex_typed_entries E Hok). reflexivity.
+Qed.
